@@ -268,6 +268,12 @@ func (fr *Frame) runDefers() {
 
 func (fr *Frame) execGo(in *ssa.Go) {
 	cc := &in.Call
+	for _, a := range fr.callArgVals(cc) {
+		fr.markEscaped(a)
+	}
+	if _, isB := cc.Value.(*ssa.Builtin); !isB && !cc.IsInvoke() {
+		fr.markEscaped(fr.val(cc.Value))
+	}
 	names := fr.calleeNames(cc)
 	fn := cc.StaticCallee()
 	if fn != nil {
